@@ -297,6 +297,89 @@ pub fn run_mutpass()
 	}
 }
 
+// ---- fcall-eval: the function call pass (E531-E533) on small expressions ------------------------------------------
+//   copy <flag 0|1> <class>          Deref of a whole value of that type class, analysed with the flag given
+//   arg <class>                      print!(<Deref>) as a statement: the aggregate is an immediate function argument
+//   aftercall <class>                print!(true) == <Deref>: the aggregate follows a call inside one expression
+//   assign <class>                   x = <Deref>
+pub fn run_fcall()
+{
+	use penne::alpha::analyzer::verif_function_call_hooks as h;
+	use penne::alpha::value_type::ValueType;
+	let stdin = std::io::stdin();
+	for line in stdin.lock().lines()
+	{
+		let line = line.unwrap();
+		let w: Vec<String> = line.split(' ').filter(|x| !x.is_empty()).map(|x| x.to_string()).collect();
+		let r = std::panic::catch_unwind(move || {
+			let class = w.last().unwrap().as_str();
+			let int = || Box::new(ValueType::Int32);
+			let deref_type = match class
+			{
+				"array" => Some(Ok(ValueType::Array { element_type: int(), length: 4 })),
+				"endless" => Some(Ok(ValueType::EndlessArray { element_type: int() })),
+				"slice" => Some(Ok(ValueType::Slice { element_type: int() })),
+				"slicepointer" => Some(Ok(ValueType::SlicePointer { element_type: int() })),
+				"arraylike" => Some(Ok(ValueType::Arraylike { element_type: int() })),
+				"struct" => Some(Ok(ValueType::Struct { identifier: id(30) })),
+				"int" => Some(Ok(ValueType::Int32)),
+				"pointer" => Some(Ok(ValueType::Pointer { deref_type: int() })),
+				_ => None,
+			};
+			let deref = Expression::Deref {
+				reference: Reference { base: Ok(id(3)), steps: Vec::new(), address_depth: 0, location: loc(), location_of_unaddressed: loc() },
+				deref_type,
+			};
+			let lit = || Expression::BooleanLiteral { value: true, location: loc() };
+			let call = |arguments: Vec<Expression>| Expression::FunctionCall { name: id(31), builtin: Some(Builtin::Print), arguments, return_type: None };
+			let (out, flag) = match w[0].as_str()
+			{
+				"copy" => { let (e, f) = h::analyze_expression(w[1] == "1", deref); (format!("{:?}", e), f) }
+				"aftercall" =>
+				{
+					let e = Expression::Binary { op: BinaryOp::Add, left: Box::new(Expression::Parenthesized { inner: Box::new(call(vec![lit()])), location: loc() }), right: Box::new(lit()), location: loc(), location_of_op: loc() };
+					let _ = e;
+					let e = Expression::Structural {
+						members: vec![
+							MemberExpression { name: Ok(id(32)), offset: None, expression: call(vec![lit()]) },
+							MemberExpression { name: Ok(id(33)), offset: None, expression: deref },
+						],
+						structural_type: Ok(ValueType::Struct { identifier: id(34) }),
+						location: loc(),
+					};
+					let (e, f) = h::analyze_expression(false, e);
+					(format!("{:?}", e), f)
+				}
+				"arg" =>
+				{
+					let s = Statement::MethodCall { name: id(31), builtin: Some(Builtin::Print), arguments: vec![deref] };
+					let (s, f) = h::analyze_statement(s);
+					(format!("{:?}", s), f)
+				}
+				"assign" =>
+				{
+					let s = Statement::Assignment {
+						reference: Reference { base: Ok(id(4)), steps: Vec::new(), address_depth: 0, location: loc(), location_of_unaddressed: loc() },
+						value: deref,
+						location: loc(),
+					};
+					let (s, f) = h::analyze_statement(s);
+					(format!("{:?}", s), f)
+				}
+				other => panic!("unknown request {other}"),
+			};
+			let verdict = if out.contains("CannotCopyArray") { "err531" } else if out.contains("CannotCopySlice") { "err532" }
+				else if out.contains("CannotCopyStruct") { "err533" } else { "ok" };
+			format!("{} {}", verdict, if flag { 1 } else { 0 })
+		});
+		match r
+		{
+			Ok(s) => println!("{}", s),
+			Err(_) => println!("PANIC"),
+		}
+	}
+}
+
 pub fn run_mut()
 {
 	let stdin = std::io::stdin();
